@@ -118,7 +118,10 @@ theorem for2_fold (sortEv : List Ev → List Ev) (bs : List M → M → Except N
     rw [List.zipIdx_cons, List.foldlM_cons]
     have hstep : lcskpp_for2 sortEv bs ms k (ev, n) (m, i0)
         = Res.ok (ev ++ [(m.1, m.2, i0 + ms.length), (m.1 + k, m.2 + k, i0)], max (max n (m.1 + k)) (m.2 + k)) := by
-      simp [lcskpp_for2, e1, e2, e3, e4, e5]
+      have e1' : Rs.add 64 ms.length i0 = Res.ok (i0 + ms.length) := by rw [Rs.add_ok (by omega), Nat.add_comm]
+      have e3' : Rs.add 32 k m.1 = Res.ok (m.1 + k) := by rw [Rs.add_ok (by omega), Nat.add_comm]
+      have e4' : Rs.add 32 k m.2 = Res.ok (m.2 + k) := by rw [Rs.add_ok (by omega), Nat.add_comm]
+      simp [lcskpp_for2, e1, e2, e3, e4, e5, e1', e3', e4'] <;> omega
     rw [hstep, Res.ok_bind, ih (i0 + 1) _ _ (fun m' hm' => hb m' (by simp [hm'])) (by omega)]
     simp [eventsFrom, nFrom]
 
@@ -273,8 +276,9 @@ theorem for3_start (sortEv : List Ev → List Ev) (bs : List M → M → Except 
   by_cases hpos : 0 < b.1
   · obtain ⟨q, hq, hb2, -, -, -⟩ := hq2 hpos
     have eadd : Rs.add 32 k b.1 = Res.ok (k + b.1) := Rs.add_ok (by omega)
+    have eadd' : Rs.add 32 b.1 k = Res.ok (k + b.1) := by rw [Rs.add_ok (by omega), Nat.add_comm]
     have esgn : Rs.toSigned 32 b.2 = (b.2 : Int) := Rs.toSigned_of_lt (by omega)
-    simp [lcskpp_for3, startEv, ecast, erem, ege, eset1, eget, hpos, eadd, esgn, ecs, eset2, eidx, omax_NI]
+    simp [lcskpp_for3, startEv, ecast, erem, ege, eset1, eget, hpos, eadd, eadd', esgn, ecs, eset2, eidx, omax_NI]
   · simp [lcskpp_for3, startEv, ecast, erem, ege, eset1, eget, hpos, ecs, eset2, eidx, omax_NI]
 
 theorem for3_end (sortEv : List Ev → List Ev) (bs : List M → M → Except Nat Nat) (hbs : BSearchOk bs) {ms : List M} {k : Nat}
@@ -348,11 +352,13 @@ theorem for3_end (sortEv : List Ev → List Ev) (bs : List M → M → Except Na
       have eidxc : Rs.idx s.dp c = Res.ok (s.dp.getD c (0, 0)) := idx_getD _ _ _ (by rw [hI.len_dp]; omega)
       have eadd : Rs.add 32 (s.dp[c]?.getD (0, 0)).1 1 = Res.ok ((s.dp[c]?.getD (0, 0)).1 + 1) := by
         rw [← List.getD_eq_getElem?_getD]; exact Rs.add_ok (by rw [hFc]; omega)
+      have eadd' : Rs.add 32 1 (s.dp[c]?.getD (0, 0)).1 = Res.ok ((s.dp[c]?.getD (0, 0)).1 + 1) := by
+        rw [← List.getD_eq_getElem?_getD, Rs.add_ok (by rw [hFc]; omega), Nat.add_comm]
       have ecsc : Rs.castSigned 32 c = (c : Int) := Rs.castSigned_of_lt (by omega)
       have eset1 : ∀ v, Rs.setIdx s.dp p v = Res.ok (s.dp.set p v) := fun v => Rs.setIdx_ok hlt
       have eidx : ∀ v, Rs.idx (s.dp.set p v) p = Res.ok v := fun v => by
         rw [idx_getD _ _ (0, 0) (by simpa using hlt), getD_set_self _ _ _ _ hlt]
-      simp [lcskpp_for3, endEv, ecast, ecastp, erem, ege, hcd.1, hcd.2, esub1, esub2, esub3, esub4, hb', eidxp, eidxc, eadd,
+      simp [lcskpp_for3, endEv, ecast, ecastp, erem, ege, hcd.1, hcd.2, esub1, esub2, esub3, esub4, hb', eidxp, eidxc, eadd, eadd',
         ecsc, ecs, eset1, eidx, omax_NI, esetF]
     · cases hlook
 
